@@ -113,11 +113,53 @@ def _root(case):
 # ---------------------------------------------------------------- derive
 
 
+def _search_index(parent, base, what):
+    """First index i >= base (staying on base's side of 2^31) for which the child of the private parent has a leading
+    zero byte in: its private key (key0), chain code (cc0), I_L (il0), the x coordinate of its public key (px0), or its
+    own fingerprint (fp0). Each has probability 1/256 for a random index."""
+    k, c = parent.key, parent.cc
+    hard = base >= ref.HARD
+    head = (b"\x00" + ref.ser256(k)) if hard else ref.ser_p(parent.point())
+    top = 2**32 if hard else ref.HARD
+    for i in range(base, min(base + 8000, top)):
+        I = ref._hmac512(c, head + ref.ser32(i))
+        il = int.from_bytes(I[:32], "big")
+        if il >= ec.N or (il + k) % ec.N == 0:
+            continue
+        ki = (il + k) % ec.N
+        if what == "key0" and ref.ser256(ki)[0] == 0:
+            return i
+        if what == "cc0" and I[32] == 0:
+            return i
+        if what == "il0" and I[0] == 0:
+            return i
+        if what in ("px0", "fp0"):
+            K = ec.mul(ki, ec.G)
+            if what == "px0" and ref.ser_p(K)[1] == 0:
+                return i
+            if what == "fp0" and ref.fingerprint(K)[0] == 0:
+                return i
+    return None
+
+
 def check_derive(case):
     b32, whd = _b32(), _hd()
     f = Fails()
-    idxs = case["path"]
+    idxs = list(case["path"])
+    if case.get("search") and idxs:
+        root0 = _root(case)
+        what, pos = case["search"], len(idxs) - 1
+        if what == "fp0" and len(idxs) >= 2:
+            pos -= 1  # the fingerprint shows in the serialisation of the key's children
+        parent = root0.derive_path(idxs[:pos]) if root0 is not None else None
+        side_top = 2**32 if idxs[pos] >= ref.HARD else ref.HARD
+        i = _search_index(parent, min(idxs[pos], side_top - 8000), what) if parent is not None else None
+        if i is None:
+            return ["search-exhausted"], f
+        idxs[pos] = i
     cls = _path_classes(idxs) + ["net:" + case["net"], f"seedlen-{len(case['seed']) // 2}"]
+    if case.get("search"):
+        cls.append("nt:lead0-" + case["search"])
     root = _root(case)
     want = root.derive_path(idxs) if root is not None else None
     if want is None:
@@ -184,6 +226,7 @@ def derive_cases(tier):
             "seed": seeds(),
             "net": nets(),
             "path": depths(tier).flatmap(lambda d: st.lists(indices(), min_size=d, max_size=d)),
+            "search": st.sampled_from([None] * 8 + ["key0", "key0", "cc0", "il0", "px0", "fp0"]),
         }
     )
 
@@ -626,8 +669,9 @@ def targets(tier):
             "derive",
             check_derive,
             strategy=derive_cases,
-            budget={"quick": 160, "thorough": 3200},
-            required=["nt:mixed-hardened-plain", "nt:idx-max-plain", "nt:idx-min-hardened", "nt:idx-max-hardened", "net:main", "net:test", "depth-0", "all-plain", "all-hardened"],
+            budget={"quick": 240, "thorough": 4000},
+            required=["nt:mixed-hardened-plain", "nt:idx-max-plain", "nt:idx-min-hardened", "nt:idx-max-hardened", "net:main", "net:test", "depth-0", "all-plain", "all-hardened",
+                      "nt:lead0-key0", "nt:lead0-cc0", "nt:lead0-il0", "nt:lead0-px0", "nt:lead0-fp0"],
         ),
         Target(
             "commute",
